@@ -4,7 +4,6 @@ use crate::driver::{layout_inverse, Ctx, Layout, Opts, Sandbox};
 use crate::model;
 use crate::props::c01::panic_kind;
 use crate::runner::{hash_of, Failure, Run, Stats};
-use proptest::prelude::*;
 use serde_json::{json, Value};
 
 pub const LEVEL: &str = "exploration";
